@@ -16,9 +16,9 @@ static char *mk_buffer(void)
 }
 
 void h_parent_path_p(void) { char *base = mk_buffer(); size_t a, b; __CPROVER_assume(a <= C18_LEN + 1 && b <= C18_LEN + 1);
-                             parent_path_p(base + a, base + b); }
+                             parent_path_p(base + a, base + b); V_COVER(1); }
 void h_read_path(void)     { char *base = mk_buffer(); size_t a, b; __CPROVER_assume(a <= C18_LEN + 1 && b <= C18_LEN + 1);
-                             char *r = base + a; read_path(&r, base + b); }
+                             char *r = base + a; read_path(&r, base + b); V_COVER(r < base + a); }
 void h_move_path(void)     { char *base = mk_buffer(); size_t a, b, c; __CPROVER_assume(a <= C18_LEN + 1 && b <= C18_LEN + 1 && c <= C18_LEN + 1);
-                             char *r = base + a, *w = base + c; move_path(&r, &w, base + b); }
-void h_collapsePath(void)  { char *base = mk_buffer(); Ports_collapsePath(base + 1); }
+                             char *r = base + a, *w = base + c; move_path(&r, &w, base + b); V_COVER(r < base + a); }
+void h_collapsePath(void)  { char *base = mk_buffer(); char *res = Ports_collapsePath(base + 1); V_COVER(C18_LEN > 4 && res > base + 1); }
